@@ -13,7 +13,7 @@ def M():
 
 def uint_cls(w):
     ex, mi = M()
-    return {1: mi.uint1, 8: mi.uint8, 16: mi.uint16, 32: mi.uint32, 64: mi.uint64}[w]
+    return {1: mi.uint1, 8: mi.uint8, 16: mi.uint16, 32: mi.uint32, 64: mi.uint64, 128: mi.uint128}[w]
 
 
 def Int(v, w):
